@@ -29,6 +29,8 @@ BIN=/verif/target/debug/check
 if [ "$ID" = "C09" ] && [ "$MODE" = "thorough" ]; then
   FZ=/verif/target/fuzz-c09; rm -rf "$FZ"; mkdir -p "$FZ/corpus" "$FZ/artifacts"
   SEED=${VERIF_SEED:-1}; [ "$SEED" = "0" ] && SEED=1
+  # the fuzz crate resolves offline from the harness's lock file (plus libfuzzer-sys & co from the registry cache)
+  [ -f /verif/harness/fuzz/Cargo.lock ] || cp /verif/harness/Cargo.lock /verif/harness/fuzz/Cargo.lock
   if (cd /verif/harness && cargo +nightly fuzz build -s none c09_roundtrip >"$FZ/build.log" 2>&1); then
     (cd /verif/harness && cargo +nightly fuzz run -s none c09_roundtrip "$FZ/corpus" -- -runs=${VERIF_FUZZ_RUNS:-3000000} -seed=$SEED -max_len=256 -len_control=0 -artifact_prefix="$FZ/artifacts/" >"$FZ/run.log" 2>&1)
     FRC=$?
